@@ -194,6 +194,11 @@ class C06(PropBase):
             st.hit("damaged_on_%s_path" % path)
             x["cells"].add((kind, i, pos, path, ev["ok"]))
             x["seen"].add(i)
+        if not ev["ok"] and not ev["exc"]["proto"] and ev["st_after"] != "CLOSED":
+            # neither a message nor a protocol error: the units this call completed are not accounted for yet - the run
+            # goes on and the count below decides (the exception class itself is C05's statement)
+            st.hit("foreign_exception_then_continued")
+            return
         if not ev["ok"]:
             x["error"] = True
             if dam_completed:
@@ -229,6 +234,10 @@ class C06(PropBase):
             if x["error"]:
                 return
         if S.real.state.name == "CLOSED":
+            return
+        # everything has been delivered and no protocol error was raised: the count must be complete now
+        self.step(st, {"op": "deliver", "n": 0, "buf": "bytes"})
+        if x["error"] or S.real.state.name == "CLOSED":
             return
         # nothing may be stuck: one more intact PDU must come out, alone
         if st.w.init["role"] == "s":
